@@ -112,8 +112,8 @@ EXPORT errno_t _wmemmove_s_chk(wchar_t *dest, rsize_t dlen, const wchar_t *src,
                                const size_t srcbos)
 #endif
 {
-    const rsize_t dmax = dlen * SIZEOF_WCHAR_T;
-    const rsize_t smax = count * SIZEOF_WCHAR_T;
+    const rsize_t dmax = SAFEC_MUL_SAT(dlen, SIZEOF_WCHAR_T);
+    const rsize_t smax = SAFEC_MUL_SAT(count, SIZEOF_WCHAR_T);
 
     if (unlikely(count == 0)) {
         return (RCNEGATE(EOK));
